@@ -212,6 +212,20 @@ pub fn run(run: &mut Run) -> PResult {
     run.assume("texts with more tokens than slots: only totality is asserted (the statement speaks of fewer and of exactly that many)");
     run.assume(&format!("'whitespace' is one of the two standard definitions (Unicode White_Space or ASCII whitespace); which one the crate follows is probed on the two-card parser (this run: {:?}) and then required uniformly of every parser on every text, so either implementation passes but a mixture does not", ws_def()));
     super::regress::replay_dir(run, "C12", check_case)?;
+    {
+        let mut toks: Vec<String> = Vec::new();
+        for r in text::RANK_SYMBOLS.chars() {
+            for s in text::SUIT_SYMBOLS.chars() {
+                toks.push(format!("{}{}", r, s));
+            }
+        }
+        for t in ["", "A", "♠", "♠A", "XS", "AX", "1S", "Ａs", "\u{212A}S", "A\u{2640}", "\u{12}S", "0♡xyz", "🂡", " AS"] {
+            toks.push(t.to_string());
+        }
+        super::common::disturbance_pass(run, &toks, &|t| token_clause(t), &|t| ("C12.token".into(), json!({"token": t}), format!("{:?}", t)))?;
+        let texts: Vec<String> = ["AS KS", "AS KS QS", "2c 3c 4c 5c", "A♠ K♠ Q♠ J♠ T♠", "as\tkd\nqh  jc\r0s 9d", "AS KS QS JS TS 9S 8S", "AS KS QS JS TS 9S", "zz AS", "AS\u{b}KS", "AS\u{85}KS QS", " ", "2c 2c 2c 2c 2c 2c 2c 2c"].iter().map(|s| s.to_string()).collect();
+        super::common::disturbance_pass(run, &texts, &|t| hand_clause(t).map(|_| ()), &|t| ("C12.hand".into(), json!({"text": t}), format!("{:?}", t)))?;
+    }
     let thorough = run.tier == Tier::Thorough;
     // E1
     let mut n = 0u64;
@@ -382,6 +396,9 @@ pub fn run(run: &mut Run) -> PResult {
 }
 
 pub fn check_case(clause: &str, case: &Value) -> Result<(), String> {
+    if clause.ends_with(".after_disturbance") {
+        return super::common::replay_after_disturbance(case, check_case);
+    }
     match clause {
         "C12.symbol" => {
             let c = case["codepoint"].as_u64().and_then(|x| char::from_u32(x as u32)).ok_or("codepoint")?;
